@@ -27,7 +27,7 @@ var upstreamCert = func() tls.Certificate {
 }()
 
 func serveTLSNamed(t hx.TB) net.Listener {
-	base, err := net.Listen("tcp", "127.0.0.1:0")
+	base, err := hx.Listen("tcp", "127.0.0.1:0")
 	if err != nil {
 		t.Fatalf("listen: %v", err)
 	}
